@@ -36,6 +36,7 @@ type c19Case struct {
 	Shift   bool   // the stake moves (by less than a signer-set refresh needs) after the Minter signer set was published
 	Tiny    int64  // >0: transfer amount in hub units (commission of a few units: shares round to zero)
 	OneTx   bool   // the hub-originated transfers are sent in ONE transaction (they share its hash)
+	NoMinter bool  // the token has no Minter row: commissions and fee payouts cannot be made, the fees are kept whole
 }
 
 func c19Cases(tier string) []c19Case {
@@ -58,7 +59,7 @@ func c19Cases(tier string) []c19Case {
 								if (sz+sp+fp+pr)%2 == 1 {
 									ch = "bsc"
 								}
-								out = append(out, c19Case{sz, sp, fp, pr, d, pw, or, ch, -1, false, 0, false})
+								out = append(out, c19Case{sz, sp, fp, pr, d, pw, or, ch, -1, false, 0, false, false})
 							}
 						}
 					}
@@ -70,7 +71,7 @@ func c19Cases(tier string) []c19Case {
 	for _, pw := range [][]int64{{60, 30, 10}, {30, 60, 10}, {20, 30, 50}} {
 		for nk := 0; nk < 2; nk++ {
 			for _, d := range []uint64{6, 18} {
-				out = append(out, c19Case{2, 0, 1, 0, d, pw, "hub", "ethereum", nk, false, 0, false})
+				out = append(out, c19Case{2, 0, 1, 0, d, pw, "hub", "ethereum", nk, false, 0, false, false})
 			}
 		}
 	}
@@ -80,7 +81,7 @@ func c19Cases(tier string) []c19Case {
 		for _, or := range []string{"hub", "minter"} {
 			for _, d := range []uint64{6, 18} {
 				for fp := 0; fp < 2; fp++ {
-					out = append(out, c19Case{2, 0, fp, 0, d, pw, or, "ethereum", -1, true, 0, false})
+					out = append(out, c19Case{2, 0, fp, 0, d, pw, or, "ethereum", -1, true, 0, false, false})
 				}
 			}
 		}
@@ -89,24 +90,31 @@ func c19Cases(tier string) []c19Case {
 	// decimals may exceed the fee paid by a few units
 	for _, sz := range []int{2, 3, 5} {
 		for _, d := range []uint64{18, 6} {
-			out = append(out, c19Case{sz, 3, 3, 0, d, []int64{10, 10, 10}, "minter", "ethereum", -1, false, 0, false})
+			out = append(out, c19Case{sz, 3, 3, 0, d, []int64{10, 10, 10}, "minter", "ethereum", -1, false, 0, false, false})
 		}
 	}
 	// a fee equal to the average reimbursement truncated to external units (below the average itself)
 	for _, sz := range []int{2, 3} {
 		for _, d := range []uint64{6, 18} {
-			out = append(out, c19Case{sz, 4, 4, 0, d, []int64{10, 10, 10}, "minter", "ethereum", -1, false, 0, false})
+			out = append(out, c19Case{sz, 4, 4, 0, d, []int64{10, 10, 10}, "minter", "ethereum", -1, false, 0, false, false})
+		}
+	}
+	// a token that is not listed on Minter: no payout can be made; the execution is applied all the same and the fee
+	// records report the whole fee as kept
+	for _, d := range []uint64{6, 18} {
+		for fp := 0; fp < 2; fp++ {
+			out = append(out, c19Case{2, 1, fp, 0, d, []int64{10, 10, 10}, "hub", "ethereum", -1, false, 0, false, true})
 		}
 	}
 	// two withdrawals with different fees in one hub transaction
 	for _, d := range []uint64{6, 18} {
-		out = append(out, c19Case{2, 1, 1, 0, d, []int64{10, 10, 10}, "hub", "ethereum", -1, false, 0, true})
+		out = append(out, c19Case{2, 1, 1, 0, d, []int64{10, 10, 10}, "hub", "ethereum", -1, false, 0, true, false})
 	}
 	// commissions of a few units only
 	for _, amt := range []int64{100, 250, 1000} {
 		for _, pw := range [][]int64{{10, 10, 10}, {98, 1, 1}, {7}} {
 			for _, sz := range []int{1, 2} {
-				out = append(out, c19Case{sz, 0, 1, 0, 18, pw, "hub", "ethereum", -1, false, amt, false})
+				out = append(out, c19Case{sz, 0, 1, 0, 18, pw, "hub", "ethereum", -1, false, amt, false, false})
 			}
 		}
 	}
@@ -163,6 +171,9 @@ func c19Run(in *hub.Instance, cs c19Case) (res c19Res) {
 		{Id: 1, Denom: "hub", ChainId: cs.Chain, ExternalTokenId: tokExt, ExternalDecimals: cs.Dec, Commission: sdk.NewDec(1).QuoInt64(100)},
 		{Id: 2, Denom: "hub", ChainId: "minter", ExternalTokenId: "1", ExternalDecimals: 18, Commission: sdk.NewDec(1).QuoInt64(100)},
 	}}
+	if cs.NoMinter {
+		g.Hub.TokenInfos.TokenInfos = g.Hub.TokenInfos.TokenInfos[:1]
+	}
 	base := "eth"
 	if cs.Chain == "bsc" {
 		base = "bnb"
@@ -336,7 +347,7 @@ func c19Run(in *hub.Instance, cs c19Case) (res c19Res) {
 	}
 	for _, m := range in.ErrLog {
 		// a listed token, prices and Minter keys are in place: nothing justifies dropping the payouts of the batch
-		if strings.Contains(m, "payouts of an executed batch failed") {
+		if strings.Contains(m, "payouts of an executed batch failed") && !cs.NoMinter {
 			bad("payouts_of_executed_batch_failed", "batchTxExecuted", "%s", m)
 		}
 	}
@@ -419,8 +430,8 @@ func c19Run(in *hub.Instance, cs c19Case) (res c19Res) {
 		sumCom.Add(sumCom, got)
 		// share of what is paid out in total (= collected, truncated)
 		want := new(big.Rat).Mul(collected, big.NewRat(powers[i], totStake))
-		if i == cs.NoKey {
-			want = new(big.Rat)
+		if i == cs.NoKey || cs.NoMinter {
+			want = new(big.Rat) // (without a Minter row nothing can be paid out: everything collected is kept)
 		}
 		diff := new(big.Rat).Sub(new(big.Rat).SetInt(got), want)
 		tol := new(big.Rat).Add(big.NewRat(1, 1), new(big.Rat).Mul(collected, big.NewRat(int64(len(vals)), 1<<32)))
